@@ -472,6 +472,28 @@ fn main() {
   });
   space.insert("width_ladder_programs_accepted_by_compiler".into(), json!(width_accepted.load(Ordering::Relaxed)));
 
+  // ---- 6. call-shape ladders: every callee kind x argument count x kind of last argument ----
+  let arity = vcore::illtyped::arity();
+  space.insert("call_shape_programs".into(), json!(arity.len()));
+  arity.par_iter().for_each(|a| {
+    let r = timed(&a.text);
+    report(&a.text, &format!("call shape: {}", a.what), r)
+  });
+  let mut multi: Vec<vcore::illtyped::Ill> = vcore::illtyped::conformance();
+  multi.extend(vcore::illtyped::visibility());
+  space.insert("conformance_and_visibility_programs".into(), json!(multi.len()));
+  multi.par_iter().for_each(|g| {
+    evaluated.fetch_add(1, Ordering::Relaxed);
+    let (a, b) = if g.modules.len() == 2 { (g.modules[0].1.as_str(), g.modules[1].1.as_str()) } else { ("class Unused {}\n", g.modules[0].1.as_str()) };
+    let _ = (a, b);
+    for (_, t) in &g.modules {
+      // each module alone (unresolved imports included) must not crash either
+      if let Err((sig, msg)) = exercise(t) {
+        run.violation(&sig, &msg, json!({"input": t, "origin": g.what}));
+      }
+    }
+  });
+
   let samples: Vec<Value> = spaced_samples(&soups, 3)
     .into_iter()
     .map(|s| json!({"kind":"token soup","input": s}))
